@@ -46,7 +46,7 @@ REG16 = ["ax", "bx", "cx", "dx", "si", "di", "bp", "sp", "r8w", "r9w", "r10w", "
 REG8 = ["al", "bl", "cl", "dl", "sil", "dil", "bpl", "spl", "r8b", "r9b", "r10b", "r11b", "r12b", "r13b", "r14b", "r15b"]
 
 
-def template_source(rnd, n):
+def template_source(rnd, n, branches=True):
     """n random instructions whose operands are drawn from the AT&T forms of C09."""
     out = ["\t.text", "f:"]
 
@@ -63,6 +63,8 @@ def template_source(rnd, n):
 
     for _ in range(n):
         kind = rnd.randrange(9)
+        if kind == 5 and not branches:
+            kind = 6
         w = rnd.choice(["q", "l", "w", "b"])
         regs = {"q": REG64, "l": REG32, "w": REG16, "b": REG8}[w]
         if kind == 0:
